@@ -144,7 +144,9 @@ def main(tier):
         for tid, b in enumerate(behs):
             sub = d / f"b{tid}"
             sub.mkdir()
-            layerb.replay_behaviour(b, sub, comp, tid, events)
+            # interval classes: the default strain increment 0.2 per call, a long single call (strain 2.6: many solver
+            # steps, and anything that splits large increments into passes) and a very short one
+            layerb.replay_behaviour(b, sub, comp, tid, events, dt=(None, 2.6, None, 0.05, None)[tid % 5])
             chk.count(("beh", json.dumps([s["act"] for s in b[1:]], sort_keys=True)))
         chk.sample(dict(kind="behaviour", calls=[s["act"] for s in behs[0][1:]]))
         for prop, clause, detail in comp.mismatches:
